@@ -21,6 +21,7 @@ const LEN: usize = Buffer::LEN;
 thread_local! {
     static EVALS: Cell<u64> = const { Cell::new(0) };
     static HINTED: Cell<u64> = const { Cell::new(0) };
+    static ROTATED: Cell<u64> = const { Cell::new(0) };
 }
 fn ev(n: u64) {
     EVALS.with(|c| c.set(c.get() + n));
@@ -208,7 +209,23 @@ fn check_delay(cx: &mut Cx, ring_lens: &[usize], in_bufs: Option<usize>, n_out: 
     let mut rng = Rng::derive(seed, &[16, 4]);
     let feeds: Vec<Rc<Vec<Block>>> = in_bufs.iter().map(|nb| Rc::new((0..calls).map(|_| block(&mut rng, *nb, false)).collect())).collect();
     // initial ring contents: distinctive negative values
-    let rings: Vec<reg_ring_buffer::Fixed<Vec<f32>>> = ring_lens.iter().enumerate().map(|(ch, l)| reg_ring_buffer::Fixed::from((0..*l).map(|i| -(1000.0 * (ch + 1) as f32) - i as f32).collect::<Vec<f32>>())).collect();
+    // the rings are handed over rotated (first index derived from the seed): logical element i
+    // of channel ch lives in physical slot (first + i) % len
+    let rings: Vec<reg_ring_buffer::Fixed<Vec<f32>>> = ring_lens
+        .iter()
+        .enumerate()
+        .map(|(ch, l)| {
+            let first = (seed as usize + 3 * ch + 1) % *l;
+            let mut phys = vec![0f32; *l];
+            for i in 0..*l {
+                phys[(first + i) % *l] = -(1000.0 * (ch + 1) as f32) - i as f32;
+            }
+            if first != 0 {
+                ROTATED.with(|c| c.set(c.get() + 1));
+            }
+            reg_ring_buffer::Fixed::from_raw_parts(first, phys)
+        })
+        .collect();
     let mut node = Delay(rings);
     let outs = drive(&mut node, &feeds, n_out, calls);
     let active = match in_bufs {
@@ -633,6 +650,10 @@ fn main() {
             rep.nontrivial(vmon::hash_combine(vmon::hash_str(what), vmon::hash_str(&format!("{:?}{}{:?}", ins, n_out, extra))));
         }
         rep.eval(EVALS.with(|c| c.replace(0)));
+        let r = ROTATED.with(|c| c.replace(0));
+        if r > 0 {
+            rep.hit_n("delay_ring_handed_over_rotated", r);
+        }
         let h = HINTED.with(|c| c.replace(0));
         if h > 0 {
             rep.hit_n("signal_node_driven_past_exhaustion_hint", h);
@@ -642,6 +663,7 @@ fn main() {
         rep.merge(r);
     }
     if !lean {
+        rep.oblige("delay_ring_handed_over_rotated", 1);
         rep.oblige("signal_node_driven_past_exhaustion_hint", 1);
     }
     if !lean {
